@@ -43,7 +43,8 @@ def run(ctx):
     return verif.finish(ctx, "exploration", cov, [
         "oracle = declarative definition in Fn_SnapFilter.tla (statement + manual); TLC evaluates RecOK on every record of the real FindAll / FindLatest / GroupSnapshots",
         "the tag filter '' means 'untagged' (manual); tag lists mixing '' with other tags are excluded (the manual does not define them)",
-        "filter paths are absolute and clean (findLatest makes relative paths absolute against the working directory)",
+        "filter paths are absolute; FindAll without ids gets clean paths; the 'latest' queries also get unclean spellings (trailing /, /., //, /zz/..) which findLatest cleans — the record carries the clean paths (f.paths) next to the spellings (f.spell), the driver's cleaning is the trusted part",
+        "repeating a host, a tag, a tag list or a path in a filter changes nothing (the options are sets)",
         "ties among the newest matching snapshots: any of them is accepted as 'latest'",
         "snapshots carry no duplicate tags or paths; snapshot store = in-memory Lister/LoaderUnpacked (listing order shuffled by seed)",
     ])
